@@ -94,6 +94,7 @@ type World struct {
 	mu     sync.Mutex
 
 	Codes      map[string]uint64 // thread -> drpcerr.Code of the last error a call returned
+	EGate      dir.Gate
 	svGoidSeen int64
 	LastWhere  map[string]string
 	Lines      []Line
@@ -233,7 +234,22 @@ func (h *Handler) HandleRPC(stream drpc.Stream, rpc string) error {
 }
 
 func init() {
-	dir.Gates = append([][2]string{{"sys.(*Handler).next", "h"}}, dir.Gates...)
+	dir.Gates = append([][2]string{{"sys.(*Handler).next", "h"}, {"sys.(*gatedErr).Error", "ma"}}, dir.Gates...)
+}
+
+// gatedErr is an application error whose Error() method (user code, called by drpcwire.MarshalError inside
+// SendError) parks at a gate the first time it is called.
+type gatedErr struct {
+	msg  string
+	g    *dir.Gate
+	once sync.Once
+}
+
+func (e *gatedErr) Error() string {
+	if e.g != nil {
+		e.once.Do(e.g.Wait)
+	}
+	return e.msg
 }
 
 // New builds the world and lets it settle.
@@ -370,6 +386,17 @@ func (w *World) Apply(st Stim) bool {
 			w.D.Go(st.T, func() string { return ErrClass(s.CloseSend()) })
 		case "Close":
 			w.D.Go(st.T, func() string { return ErrClass(s.Close()) })
+		case "SendErr":
+			se, ok := s.(interface{ SendError(error) error })
+			if !ok {
+				w.nst--
+				return false
+			}
+			ge := &gatedErr{msg: fmt.Sprintf("ce%d", st.R)}
+			if w.Cfg.GateU {
+				ge.g = &w.EGate
+			}
+			w.D.Go(st.T, func() string { return ErrClass(se.SendError(ge)) })
 		default:
 			w.nst--
 			return false
@@ -450,6 +477,13 @@ func (w *World) Apply(st Stim) bool {
 		}
 		w.mark()
 		return w.D.ReleasePoint(st.T)
+	case "relm":
+		id := w.D.Thread(st.T).GoID()
+		if id == 0 || !w.EGate.ReleaseWho(id) {
+			return false
+		}
+		w.mark()
+		return true
 	case "relu":
 		id := w.D.Thread(st.T).GoID()
 		if id == 0 || !w.Enc.U.ReleaseWho(id) {
@@ -519,6 +553,8 @@ func (w *World) Observe() (Obs, bool) {
 				o.App[name] = "tw"
 			case "gate:um":
 				o.App[name] = "um"
+			case "gate:ma":
+				o.App[name] = "ma"
 			case "gate:h":
 				w.H.mu.Lock()
 				o.App[name] = "h:" + w.H.last
@@ -723,6 +759,7 @@ func (w *World) Cleanup() bool {
 			return true
 		}
 		w.Enc.U.ReleaseAll()
+		w.EGate.ReleaseAll()
 		for _, rs := range w.rpcs {
 			rs.cancel()
 		}
